@@ -174,7 +174,7 @@ func runC16(r *Run) {
 			out2 = "ok " + sum16(*bp)
 		}
 		r.Line(fmt.Sprintf("write gen:%d:%d", l, seed), out2)
-		r.Eval(fmt.Sprintf("write:%d:%d", l, seed), l > 12 && l <= 65535)
+		r.Eval(fmt.Sprintf("write:%d:%d", l, seed), l >= 12 && l <= 65535)
 		r.Count("write:" + map[bool]string{true: "in-range", false: "out-of-range"}[l <= 65535])
 		desc := map[string]any{"len": l, "seed": seed}
 		if l > 65535 {
@@ -193,8 +193,8 @@ func runC16(r *Run) {
 		if err2 != nil || !bytes.Equal(*bp, want) {
 			r.Fail("copyMsgWithLenHdr did not build length header + message", desc)
 		}
-		// round trip under a chunking, with trailing bytes
-		if l >= 13 {
+		// round trip under a chunking, with trailing bytes (12 bytes = a bare DNS header is a message too: F18)
+		if l >= 12 {
 			trail := r.Rng.Intn(30)
 			stream := append(append([]byte{}, want...), gen16(trail, 7)...)
 			sizes := r.chunking16(len(stream))
@@ -260,7 +260,7 @@ func runC16(r *Run) {
 					out = errKind16(err)
 				} else {
 					out = fmt.Sprintf("ok %s rest=%d", sum16(*b), cr.remaining())
-					if len(*b) < 13 || len(*b) != int(binary.BigEndian.Uint16(stream)) {
+					if len(*b) < 12 || len(*b) != int(binary.BigEndian.Uint16(stream)) {
 						r.Fail("ReadRawMsgFromTCP returned a buffer whose size is not the announced length", map[string]any{"stream": hx(stream), "chunking": sizesStr(sizes), "got_len": len(*b)})
 					}
 				}
@@ -378,7 +378,7 @@ func runC16(r *Run) {
 	// ---- DoQ streams carry exactly one frame per direction (RFC 9250 4.2)
 	doqScenarios(r, "C16", r.N(40, 400))
 	finishSlowDoQ16(r, slowDoQ)
-	r.Finish("boundary lengths {0..14,255..257,511,512,4095,4096,8188..8192,65533..65537,70000} + seeded lengths; every in-range write is read back under a seeded chunking (single chunk, 1-byte reads, split header, random, empty reads); read side: 40% valid frames, 20% announced<=12, 20% truncated, 20% random bytes, each under a chunking; packed messages around the 8191-byte scratch buffer; concurrent ServeTCP replies on a wrapped connection; the pipelined client connection (TraditionalDnsConn) with 2-8 queries in flight fed reply bursts under adversarial cuts, and bursts holding a frame that announces 1..12 bytes (random body, or a body that reads as header + id of a query in flight at a wrong offset) between the reply frames: every successful exchange returns exactly its frame, nothing framed behind the short frame is handed out (also replayed on Model.C16.decodeAll, op readall); ServeTCP over loopback TCP / net.Pipe with an 80-160 ms idle timeout fed frames cut inside the header / body / at embedded framed data, with pauses beyond the timeout while a query is in flight (only framed messages may reach the handler; also replayed on Model.C16.serve) and, with a 5 s timeout, without pauses (every frame handled and answered); the real ServeDoQ over quic-go: one frame per stream, and with handlers returning 2.25-2.9 s after the stream was accepted (beyond the 2 s stream deadline), replies of 9-50 KB against a 1-8 KiB client stream window and clients that start reading 2.3-2.8 s late, all in flight together: every reply the handler returned arrives as exactly one frame before FIN (also replayed on Model.C16.doqStream); non-trivial = not (valid frame in one chunk)")
+	r.Finish("boundary lengths {0..14,255..257,511,512,4095,4096,8188..8192,65533..65537,70000} + seeded lengths; every in-range write is read back under a seeded chunking (single chunk, 1-byte reads, split header, random, empty reads); read side: 40% valid frames, 20% announced 0..12 (12 = a bare header: a valid frame since the repair of F18, below it an error), 20% truncated, 20% random bytes, each under a chunking; packed messages around the 8191-byte scratch buffer; concurrent ServeTCP replies on a wrapped connection; the pipelined client connection (TraditionalDnsConn) with 2-8 queries in flight fed reply bursts under adversarial cuts, and bursts holding a frame that announces 1..11 bytes (random body, or a body that reads as header + id of a query in flight at a wrong offset) between the reply frames: every successful exchange returns exactly its frame, nothing framed behind the short frame is handed out (also replayed on Model.C16.decodeAll, op readall); ServeTCP over loopback TCP / net.Pipe with an 80-160 ms idle timeout fed frames cut inside the header / body / at embedded framed data, with pauses beyond the timeout while a query is in flight (only framed messages may reach the handler; also replayed on Model.C16.serve) and, with a 5 s timeout, without pauses (every frame handled and answered); the real ServeDoQ over quic-go: one frame per stream, and with handlers returning 2.25-2.9 s after the stream was accepted (beyond the 2 s stream deadline), replies of 9-50 KB against a 1-8 KiB client stream window and clients that start reading 2.3-2.8 s late, all in flight together: every reply the handler returned arrives as exactly one frame before FIN (also replayed on Model.C16.doqStream); non-trivial = not (valid frame in one chunk)")
 }
 
 // clientReadLoops16: the client side of stream framing inside the transports. N queries are in flight on one
@@ -517,7 +517,7 @@ func clientReadLoops16(r *Run, rounds int) {
 	}
 }
 
-// clientRuntFrames16: a pipelined length-prefixed connection whose server puts a frame announcing 1..12 bytes (with
+// clientRuntFrames16: a pipelined length-prefixed connection whose server puts a frame announcing 1..11 bytes (with
 // that many body bytes) between valid reply frames, the whole stream cut adversarially. "A length announcing less
 // than a DNS header ... yields an error, never a buffer of another size": every successful exchange must return
 // exactly the frame the server sent for it, and nothing framed after the short frame may be handed out (the read
@@ -528,10 +528,10 @@ func clientRuntFrames16(r *Run, rounds int) {
 	for rd := 0; rd < rounds; rd++ {
 		n := 2 + r.Rng.Intn(6)
 		pre := r.Rng.Intn(n) // replies framed before the short frame; at least one comes after it
-		L := 1 + r.Rng.Intn(12)
+		L := 1 + r.Rng.Intn(11) // less than a DNS header
 		crafted := r.Rng.Intn(10) < 7
 		if crafted {
-			L = 4 + r.Rng.Intn(9)
+			L = 4 + r.Rng.Intn(8) // 4..11
 		}
 		how := r.Rng.Intn(4)
 		fc := newFakeConn(rd, true)
